@@ -16,6 +16,10 @@ type uconfig struct {
 	Any    bool
 	Family map[string]string // GraphQL type -> R | UR | X | A | AX ; "" key = schema-level root object
 	RegAll bool
+	// PerNode overrides the family of individual nodes (node id -> R | X | A | AX): objects of one
+	// GraphQL type served by different strategies. Only plain Resolver objects are mixed with the
+	// reflective representations (they take no part in the lazy Go-type binding of the type).
+	PerNode map[int]string
 }
 
 func applyConfig(base *Case, cf uconfig) *Case {
@@ -33,6 +37,9 @@ func applyConfig(base *Case, cf uconfig) *Case {
 		}
 		if n.Type == "" && fam == "AX" {
 			fam = "A"
+		}
+		if pn, ok := cf.PerNode[n.ID]; ok {
+			fam = pn
 		}
 		c.Assign[n.ID] = fam
 	}
@@ -109,6 +116,23 @@ func genCaseC02(t *rapid.T) *c02Case {
 		cf.Family[""] = rapid.SampledFrom(rootFams).Draw(t, fmt.Sprintf("mix%droot", i))
 		for _, tn := range tnames {
 			cf.Family[tn] = rapid.SampledFrom(fams).Draw(t, fmt.Sprintf("mix%d%s", i, tn))
+		}
+		cc.Configs = append(cc.Configs, cf)
+	}
+	// per-node mixtures: every node draws its own strategy
+	for i := 0; i < 2; i++ {
+		any := i == 1
+		base0, fams := "X", []string{"R", "X"}
+		if any {
+			base0, fams = "A", []string{"R", "A", "AX"}
+		}
+		cf := uniform(base, base0, any, fmt.Sprintf("mixed-per-node-any=%v", any), rapid.Bool().Draw(t, fmt.Sprintf("pnreg%d", i)))
+		cf.PerNode = map[int]string{}
+		for _, n := range base.Graph.Nodes {
+			if n.Type == "" {
+				continue
+			}
+			cf.PerNode[n.ID] = rapid.SampledFrom(fams).Draw(t, fmt.Sprintf("pn%d_%d", i, n.ID))
 		}
 		cc.Configs = append(cc.Configs, cf)
 	}
